@@ -19,15 +19,15 @@ use std::sync::{mpsc, Arc};
 pub const NSLOTS: usize = 8;
 const POISON: usize = 0xDEAD_DEAD;
 
-static DROPS: AtomicUsize = AtomicUsize::new(0);
+pub static DROPS: AtomicUsize = AtomicUsize::new(0);
 
 static SERIAL: AtomicUsize = AtomicUsize::new(1);
 
 pub struct Node {
     serial: usize,
     id: std::cell::Cell<usize>,
-    next: AtomicRc<Node>,
-    other: AtomicRc<Node>,
+    pub next: AtomicRc<Node>,
+    pub other: AtomicRc<Node>,
 }
 unsafe impl Sync for Node {}
 unsafe impl RcObject for Node {
@@ -42,7 +42,7 @@ impl Drop for Node {
         DROPS.fetch_add(1, Ordering::SeqCst);
     }
 }
-fn node(id: usize) -> Node {
+pub fn node(id: usize) -> Node {
     Node { serial: SERIAL.fetch_add(1, Ordering::SeqCst), id: std::cell::Cell::new(id), next: AtomicRc::null(), other: AtomicRc::null() }
 }
 
